@@ -41,22 +41,35 @@ pub fn gen_block(rng: &mut Rng) -> Vec<u8> {
     b
 }
 
-fn pick_sp(ix: u16, de: u16, blen: usize) -> u16 {
-    // a RAM stack that the load area [ix, ix+de+1] does not touch
+/// the other CPU address (if any) that shows the same RAM byte as `addr` when `top` is paged at 0xC000
+fn alias(addr: u16, top: u8) -> Option<u16> {
+    let (w, off) = (addr >> 14, addr & 0x3FFF);
+    match (w, top) {
+        (1, 5) | (2, 2) => Some(0xC000 | off),
+        (3, 5) => Some(0x4000 | off),
+        (3, 2) => Some(0x8000 | off),
+        _ => None,
+    }
+}
+
+fn pick_sp(ix: u16, de: u16, blen: usize, top: u8) -> u16 {
+    // a RAM stack that the load area [ix, ix+de+1] does not touch, neither directly nor through the
+    // second window onto the same bank (128K with bank 5 or 2 paged at 0xC000)
     for cand in [0xBFF0u16, 0x9FF0, 0x7FF0, 0x5FF0, 0xFF80, 0xDFF0] {
-        let lo = cand.wrapping_sub(24);
-        let hi = cand.wrapping_add(4);
-        let mut clash = false;
-        // wrap-aware overlap test by stepping (load areas are at most 64 KiB)
         let span = (de as u32 + 2).min(blen as u32 + 2);
-        if span >= 0xFF00 {
-            clash = true;
-        } else {
+        let clash_at = |c: u16| -> bool {
+            let lo = c.wrapping_sub(24);
+            let hi = c.wrapping_add(4);
+            if span >= 0xFF00 {
+                return true;
+            }
             let off_lo = lo.wrapping_sub(ix) as u32;
             let off_hi = hi.wrapping_sub(ix) as u32;
-            if off_lo < span || off_hi < span || off_lo > off_hi {
-                clash = true;
-            }
+            off_lo < span || off_hi < span || off_lo > off_hi
+        };
+        let mut clash = clash_at(cand);
+        if let Some(a) = alias(cand, top) {
+            clash |= clash_at(a);
         }
         if !clash {
             return cand;
@@ -71,12 +84,12 @@ impl Property for C10 {
     }
     fn runs(&self, tier: Tier) -> u64 {
         match tier {
-            Tier::Quick => 1_500,
+            Tier::Quick => 3_000,
             Tier::Thorough => 150_000,
         }
     }
     fn rule(&self) -> &'static str {
-        "per run: TAP image of 0..6 blocks (lengths from {0,1,2,17..20,126..131,254..259,1000,6912,random<=20000}, flag 0x00/0xFF/random, checksum right or wrong), delivered by a chunking asset (short reads only), then 1..8 LD-BYTES requests (A matching or not, LOAD/VERIFY, IX anywhere incl. ROM, screen and 0xFFF0 wrap, DE from the same length set incl. 0 and D=0xFF, VERIFY against pre-stored or foreign bytes), continuing past the end of the tape; both machines (128K with the 48K BASIC ROM paged); distinct = (block-length class, DE vs block length relation, LOAD/VERIFY, flag match, outcome)"
+        "per run: TAP image of 0..6 blocks (lengths from {0,1,2,17..20,126..131,254..259,1000,6912,random<=20000}, flag 0x00/0xFF/random, checksum right or wrong), delivered by a chunking asset (short reads only), then 1..8 LD-BYTES requests (A matching or not, LOAD/VERIFY, IX anywhere incl. ROM, screen and 0xFFF0 wrap, DE from the same length set incl. 0 and D=0xFF, VERIFY against pre-stored or foreign bytes), continuing past the end of the tape; both machines (128K with the 48K BASIC ROM paged in by a seeded paging history: any bank at 0xC000, via ROM 0, locked, locked followed by ignored writes, paging writes between requests); distinct = (block-length class, DE vs block length relation, LOAD/VERIFY, flag match, outcome)"
     }
     fn state_measure(&self) -> &'static str {
         "distinct (blocks left on tape, outcome: success / flag mismatch / parity error / short block / verify mismatch / no block) pairs"
@@ -95,7 +108,7 @@ impl Property for C10 {
         ]
     }
     fn expected_probes(&self) -> Vec<&'static str> {
-        vec!["success", "flag_mismatch", "parity_error", "short_block", "long_block", "verify_ok", "verify_mismatch", "past_end", "de_zero", "d_is_ff", "ix_wraps", "ix_in_rom", "block_crosses_128", "empty_block"]
+        vec!["success", "flag_mismatch", "parity_error", "short_block", "long_block", "verify_ok", "verify_mismatch", "past_end", "de_zero", "d_is_ff", "ix_wraps", "ix_in_rom", "block_crosses_128", "empty_block", "paging_locked_then_ignored_write"]
     }
 
     fn gen(&self, rng: &mut Rng, _tier: Tier, _idx: u64) -> Scenario {
@@ -104,6 +117,12 @@ impl Property for C10 {
         sc.set("chunk", *rng.pick(&[0i64, 1, 2, 7, 127, 128, 129, 1000]));
         sc.set("eof_err", rng.bool() as i64);
         sc.set("mem_seed", (rng.next() >> 2) as i64);
+        // 128K: how the 48K BASIC ROM got paged in (plain, with another bank at 0xC000, locked followed by
+        // an ignored write, via ROM 0 and back, locked), and paging writes between the requests
+        sc.set("pg_hist", rng.range(0, 4));
+        sc.set("pg_bank", rng.range(0, 7));
+        sc.set("pg_ignored", rng.range(0, 255));
+        let pg_between = rng.chance(1, 3);
         let nb = rng.range(0, 6) as usize;
         let blocks: Vec<Vec<u8>> = (0..nb).map(|_| gen_block(rng)).collect();
         sc.push(Op::blob("tape", &[], tape::make_tap(&blocks)));
@@ -131,6 +150,9 @@ impl Property for C10 {
             };
             // for VERIFY: pre-store the block's data at IX in half of the cases
             let prestore = (!load && rng.bool()) as i64;
+            if pg_between && rng.chance(1, 2) {
+                sc.op("pg", &[rng.range(0, 255)]);
+            }
             sc.op("req", &[a as i64, load as i64, ix & 0xFFFF, de & 0xFFFF, prestore]);
         }
         sc
@@ -149,20 +171,50 @@ impl Property for C10 {
         }
         e.verif_refresh_screen();
         if m128 {
-            e.verif_bus().write_io(0x7FFD, 0x10);
+            let bank = (sc.get("pg_bank") & 7) as u8;
+            match sc.get("pg_hist") {
+                1 => e.verif_bus().write_io(0x7FFD, 0x10 | bank),
+                2 => {
+                    ctx.probe("paging_locked_then_ignored_write");
+                    e.verif_bus().write_io(0x7FFD, 0x30 | bank);
+                    e.verif_bus().write_io(0x7FFD, sc.get("pg_ignored") as u8);
+                }
+                3 => {
+                    e.verif_bus().write_io(0x7FFD, bank);
+                    e.verif_bus().write_io(0x7FFD, 0x10 | bank);
+                }
+                4 => e.verif_bus().write_io(0x7FFD, 0x30 | bank),
+                _ => e.verif_bus().write_io(0x7FFD, 0x10),
+            }
         }
         let plan = AssetPlan { max_chunk: sc.get("chunk").max(0) as usize, eof: if sc.get("eof_err") != 0 { EofStyle::Err } else { EofStyle::Ok0 }, ..Default::default() };
         let (asset, stats) = SimAsset::new(img.clone(), plan);
         e.load_tape(Tape::Tap(AnyAsset::Sim(asset))).map_err(|x| Fail::new("C10.load_tape", "", format!("{:?}", x)))?;
         let mut next_block = 0usize;
-        for op in sc.ops.iter().filter(|o| o.k == "req") {
+        for op in sc.ops.iter() {
+            if op.k == "pg" {
+                if m128 {
+                    // an unlocked machine keeps the 48K BASIC ROM selected; a locked one ignores the write
+                    let unlocked = e.verif_paging().1;
+                    let v = op.arg(0) as u8;
+                    if !unlocked {
+                        ctx.probe("paging_locked_then_ignored_write");
+                    }
+                    e.verif_bus().write_io(0x7FFD, if unlocked { v | 0x10 } else { v });
+                }
+                continue;
+            }
+            if op.k != "req" {
+                continue;
+            }
             let a = op.arg(0) as u8;
             let load = op.arg(1) != 0;
             let ix = op.arg(2) as u16;
             let de = op.arg(3) as u16;
             let prestore = op.arg(4) != 0;
             let block = blocks.get(next_block);
-            let sp = pick_sp(ix, de, block.map(|b| b.len()).unwrap_or(0));
+            let top = if m128 { e.verif_paging().0 & 7 } else { 0 };
+            let sp = pick_sp(ix, de, block.map(|b| b.len()).unwrap_or(0), top);
             if sp == 0 {
                 continue;
             }
@@ -176,6 +228,8 @@ impl Property for C10 {
                     }
                 }
             }
+            // banks the CPU cannot see during the call must not change at all
+            let hidden: Vec<(u8, Vec<u8>)> = if m128 { (0..8u8).filter(|b| *b != 5 && *b != 2 && *b != top).map(|b| (b, e.verif_ram_page(b).to_vec())).collect() } else { vec![] };
             // model memory = CPU view before the call
             let mut model: Vec<u8> = (0..=0xFFFFu16).map(|x| e.peek(x)).collect();
             let exp = {
@@ -194,6 +248,9 @@ impl Property for C10 {
                 };
                 for (x, v) in writes {
                     model[x as usize] = v;
+                    if let Some(xa) = alias(x, top) {
+                        model[xa as usize] = v;
+                    }
                 }
                 r
             };
@@ -351,6 +408,12 @@ impl Property for C10 {
                         if d >= 1 && d <= 24 {
                             continue;
                         }
+                        if let Some(xa) = alias(x, top) {
+                            let d = sp.wrapping_sub(xa);
+                            if d >= 1 && d <= 24 {
+                                continue;
+                            }
+                        }
                         if e.peek(x) != model[x as usize] {
                             // the ROM re-enables interrupts just before it returns: when its frame interrupt
                             // handler ran (FRAMES counter moved), system-variable differences are not the loader's
@@ -364,6 +427,11 @@ impl Property for C10 {
                                 &format!("machine={},outcome={},load={}", machine, outcome, load as u8),
                                 format!("after LD-BYTES A={:02X} {} IX={:04X} DE={:04X} on block {} ({} bytes): address {:04X} holds {:02X}, the ROM loader would leave {:02X}", a, if load { "LOAD" } else { "VERIFY" }, ix, de, next_block, blen, x, e.peek(x), model[x as usize]),
                             ));
+                        }
+                    }
+                    for (b, data) in &hidden {
+                        if e.verif_ram_page(*b)[..] != data[..] {
+                            return Err(Fail::new("C10.hidden_bank", &format!("machine={},load={}", machine, load as u8), format!("LD-BYTES IX={:04X} DE={:04X} with bank {} at 0xC000 changed RAM bank {}, which is not mapped anywhere", ix, de, top, b)));
                         }
                     }
                     next_block += 1;
